@@ -187,7 +187,7 @@ func stripComment(s string) string {
 	return s
 }
 
-var hdrRe = regexp.MustCompile(`^(\(.*?\)\.[A-Za-z_0-9$]+|[^\s(]+)\s*\(([^()]*)\)\s*(?:\(([^()]*)\))?$`)
+var hdrRe = regexp.MustCompile(`^(\(.*?\)\.[A-Za-z_0-9$]+(?:@\S+)?|[^\s(]+)\s*\(([^()]*)\)\s*(?:\(([^()]*)\))?$`)
 var inRepoHdrRe = regexp.MustCompile(`^(?:\(\s*([A-Za-z_0-9]*)\s*(\*?)\s*([A-Za-z_0-9]+)\s*\)\s*)?([A-Za-z_0-9$]+)\s*\(([^()]*)\)\s*(?:\(([^()]*)\))?$`)
 
 func splitNames(s string) []string {
@@ -262,7 +262,10 @@ func (db *SpecDB) loadItems(items []rawItem, pkgPath string, trusted bool) {
 					cur = nil
 					continue
 				}
-				c.Key = normKey(m[1])
+				c.Key = m[1]
+				if !strings.Contains(c.Key, "@") {
+					c.Key = normKey(c.Key)
+				}
 				c.Params = splitNames(m[2])
 				c.Results = splitNames(m[3])
 			}
